@@ -128,6 +128,23 @@ def fromTensorList (n r : Nat) (p : Nat → Nat) : Option MPT :=
         let site := r + 1 + i
         attachRight st site (nlegsIn n p site)) st1
 
+/-- Hand-made chain: `add_root` of site `r`, then `attach_node_left_end(node, tensor, final)` /
+    `attach_node_right_end(node, tensor)` called directly in the given order (`(true, final)` = left,
+    `(false, _)` = right); left sites are numbered downwards from `r - 1`, right sites upwards from `r + 1`.
+    `from_tensor_list` only ever uses the order "all left, then all right". -/
+def directRun (n r : Nat) (p : Nat → Nat) (steps : List (Bool × Bool)) : Option MPT :=
+  if n ≤ r then none else
+  (steps.foldl
+    (fun acc s => acc.bind fun (x : MPT × Nat × Nat) =>
+      let (st, lo, hi) := x
+      if s.1 then
+        if lo = 0 then none
+        else (attachLeft st (lo - 1) (nlegsIn n p (lo - 1)) s.2).map fun st' => (st', lo - 1, hi)
+      else
+        if hi + 1 < n then (attachRight st (hi + 1) (nlegsIn n p (hi + 1))).map fun st' => (st', lo, hi + 1)
+        else none)
+    (some (addRoot r (nlegsIn n p r), r, r))).map (·.1)
+
 /-- Name of axis `a` of the `i`-th input tensor. -/
 inductive Axis where
   | left | right | phys (k : Nat)
